@@ -113,7 +113,10 @@ func c16Init() {
 	})
 }
 
-var reUnreserved = regexp.MustCompile(`^(?:[A-Za-z0-9\-_.!~*'()+]|%[0-9A-Fa-f]{2})*$`)
+// URL-safe: what the official implementation of the directive leaves unescaped (RFC 3986 unreserved, '!', '*', and '+'
+// for a blank). It escapes apostrophes and parentheses on purpose: the output is written into HTML and CSS without
+// any further escaping, where a quote ends an attribute value and a parenthesis ends url(...).
+var reUnreserved = regexp.MustCompile(`^(?:[A-Za-z0-9\-_.!~*+]|%[0-9A-Fa-f]{2})*$`)
 
 func formDecode(s string) (string, error) { return url.QueryUnescape(s) }
 func strictDecode(s string) (string, error) {
@@ -514,7 +517,7 @@ func init() {
 			return why
 		},
 		Assumptions: []string{
-			"escapeUri: the URL-safe alphabet is RFC 2396 unreserved plus %XX and '+'; strict and form-style percent-decoding are both accepted (one reading for the whole string)",
+			"escapeUri: the URL-safe alphabet is RFC 3986 unreserved plus ! * %XX and '+' (apostrophes and parentheses must be escaped, as the official implementation does: the output goes into HTML attributes and CSS url() unescaped); strict and form-style percent-decoding are both accepted (one reading for the whole string)",
 			"truncate: 'the limit' is read in its weakest form (characters); a value whose byte length fits must come back unchanged",
 			"the JavaScript side only sees values JSON can carry exactly (valid UTF-8)",
 		},
